@@ -11,10 +11,10 @@ That a valid input is accepted is NOT demanded (counted as an observation).
 
 Parts
   rsa     RSA.construct at small scale: ALL (p, q) in [0,B]^2 x e in [1,12] x d-variants x u-variants
-          x n in {pq, pq+2} x tuple lengths 2, 3, 5, 6 (B = 40 thorough / 20 quick); pseudoprime /
+          x n in {pq, pq+2} x tuple lengths 2, 3, 5, 6 (B = 40 thorough / 16 quick); pseudoprime /
           Carmichael / prime-square factors; the same tuples through RSA.import_key (PKCS#1 DER) on a
           smaller square; the 1024-bit fixture with damaged components
-  dsa     DSA.construct: all (p, q, g) with p < 48, q < 12 (quick p < 32), full (y, x) grid when the
+  dsa     DSA.construct: all (p, q, g) with p < 48, q < 12 (quick p < 24), full (y, x) grid when the
           reference accepts the domain, boundary (y, x) alphabet otherwise; 4- and 5-tuples;
           DSA.import_key (OpenSSL DER) on p < 24
   elg     ElGamal.construct: p < 64 (quick p < 32), all g, full (y, x) grid for prime p
@@ -60,6 +60,8 @@ RSA_MAP = {"n_not_positive": "n-not-positive", "n_ne_pq": "n-not-p-times-q", "fa
            "dq_range": "crt-dq-inconsistent", "e_dq_ne_1_mod_q1": "crt-dq-inconsistent"}
 
 _SCRIPT_RSA = '''# stand-alone reproduction (needs only pycryptodome)
+import signal
+signal.alarm(10)           # (n, 1, 1) never returns: SIGALRM ends the demonstration after 10 s
 from Crypto.PublicKey import RSA
 k = RSA.construct(%r)      # (n, e[, d[, p, q[, u]]]); expected: ValueError
 print("returned a key:", [(a, getattr(k, a)) for a in ("n", "e", "d", "p", "q", "u") if k.has_private() or a in "ne"])
@@ -178,9 +180,11 @@ def check_rsa(tup, acc, via="construct", budget=CPU_BUDGET):
     script = _SCRIPT_RSA % (tup,) if via == "construct" else None
     if st == "hang":
         acc.violation("C05/rsa/hang",
-                      pre + ": the call does not return (more than %.2f s of CPU time; typical 50 us) - an input "
-                      "violating the invariants must be refused with ValueError" % budget,
-                      case, script=script, size=tsize(tup) + (100 if tup[0] < 15 else 0))
+                      pre + ": the call does not return (more than %.2f s of CPU time; typical 50 us; reference class of "
+                      "the input: %s) - an input violating the invariants must be refused with ValueError"
+                      % (budget, rsa_input_class(tup)),
+                      case, script=script,
+                      size=tsize(tup) + (100 if tup[0] < 15 else 0) + (200 if rsa_input_class(tup) == "valid" else 0))
         return "hang"
     if st == "exc":
         if isinstance(val, ValueError):
